@@ -24,6 +24,7 @@ PROFILES = {
     'S11': dict(create=14, destroy=10, clone=10, switch=10, probe=14, readall=10, dump=6, reg=4, createw=6, write=6, dropw=2, events=4),
     'S12': dict(create=16, createw=5, destroy=14, iterd=8, events=20, clearev=8, clone=3, switch=3, ddestroy=3, todirect=3),
     'S10': dict(create=22, createw=22, destroy=18, len=14, dump=4, iterd=4, clone=2, switch=2, probe=4, newworld=3),
+    'B1': dict(create=12, destroy=5, borrow=60, probe=3, clone=1, switch=1, iterd=2),
     'H1': dict(create=10, destroy=4, conv=50, todirect=8, iter=3, clone=1, switch=1),
     'S7': dict(preset=0, create=20, destroy=25, probe=15, dump=5, iterd=5, len=3, todirect=3, dprobe=6),
 }
@@ -469,6 +470,37 @@ class Gen:
             ver = self.rng.choice([0, 1, 2, 0xFFFFFFFF, 0xFFFFFFFE, 0x80000000, self.rng.getrandbits(32)])
             self.do(('conv', 'e', ('r', (slot << 8) | self.rng.choice(ids), ver)))
 
+    def rand_bprog(self, depth):
+        n = self.rng.randrange(1, 5 if depth > 0 else 3)
+        prog = []
+        lives = self.lives()
+        for _ in range(n):
+            r = self.rng.random()
+            if r < 0.25 and lives:
+                k = self.rng.choice(lives)
+                a = self.issued_arch[k]
+                c = self.rng.choice(self.w.archs[a][2])
+                prog.append(('hc', a, self.w.comp_index(c), self.rng.random() < 0.5, k))
+            elif r < 0.45:
+                a = self.pick_arch()
+                c = self.rng.choice(self.w.archs[a][2])
+                prog.append(('hs', a, self.w.comp_index(c), self.rng.random() < 0.5))
+            elif r < 0.55:
+                prog.append(('rel',))
+            elif r < 0.75 and depth > 0 and self.issued:
+                k = self.rng.choice(lives) if lives and self.rng.random() < 0.85 else self.rng.randrange(len(self.issued))
+                prog.append(('fb', self.rng.randrange(len(self.w.queries)), k, self.rand_bprog(depth - 1)))
+            elif r < 0.9 and depth > 0:
+                prog.append(('ib', self.rng.randrange(len(self.w.queries)), self.rand_bprog(depth - 1)))
+            elif r < 0.96:
+                prog.append(('cl',))
+            elif depth < 3:
+                prog.append(('pn',))
+        return prog
+
+    def op_borrow(self):
+        self.do(('borrow', self.rand_bprog(self.rng.choice([1, 2, 3, 3]))))
+
     def op_events(self):
         self.do(('events', 'w' if self.rng.random() < 0.5 else ('a', self.pick_arch())))
 
@@ -499,7 +531,7 @@ class Gen:
                      reg=self.op_reg, forged=self.op_forged, readall=self.op_readall, write=self.op_write,
                      find=self.op_find, dprobe=self.op_dprobe, ddestroy=self.op_ddestroy, fault=self.op_fault,
                      dropw=self.op_dropw, newworld=self.op_new, foreign=self.op_foreign, preset=self.op_preset,
-                     events=self.op_events, clearev=self.op_clearev, conv=self.op_conv)
+                     events=self.op_events, clearev=self.op_clearev, conv=self.op_conv, borrow=self.op_borrow)
         n = self.rng.randrange(self.maxlen // 3, self.maxlen + 1)
         while len(self.s.cur['ops']) < n:
             if not any(self.alive):
@@ -545,3 +577,57 @@ def generate(binary, world, profile, seed, ncases, maxlen=60, presets=False):
             sess = sess2
     rc, err = sess.close()
     return sess.cases
+
+
+def borrow_matrix(binary, world, empty_variant=False):
+    """The whole finite matrix of (outer access, inner access) pairs of the runtime-borrowed API on one
+    world state: every outer access is held (or is the enclosing closure) while every inner one is tried."""
+    sess = Session(binary, world)
+    sess.start_case('B1-matrix-%s%s' % (world.name, '-empty' if empty_variant else ''))
+    na = len(world.archs)
+    sess.do(('new', [4] * na))
+    ents = {}
+    k = 0
+    for a in range(na):
+        ents[a] = []
+        if empty_variant and a == na - 1:
+            continue
+        for _ in range(2):
+            obs = sess.do(('create', a, k + 1))
+            ents[a].append(k)
+            k += 1
+    accesses = []
+    for a in range(na):
+        comps = world.archs[a][2]
+        cols = [comps[0], comps[-1]] if len(comps) > 3 else comps
+        for c in cols:
+            ci = world.comp_index(c)
+            for m in (False, True):
+                accesses.append(('hs', a, ci, m))
+                for e in ents[a][:2]:
+                    accesses.append(('hc', a, ci, m, e))
+    for q in range(len(world.queries)):
+        accesses.append(('ib', q))
+        for a in range(na):
+            if ents[a]:
+                accesses.append(('fb', q, ents[a][0]))
+    accesses.append(('cl',))
+    def inner_cmd(x):
+        if x[0] == 'fb':
+            return ('fb', x[1], x[2], [])
+        if x[0] == 'ib':
+            return ('ib', x[1], [])
+        return x
+    for o in accesses:
+        for i in accesses:
+            if o[0] == 'fb':
+                prog = [('fb', o[1], o[2], [inner_cmd(i)]), inner_cmd(i)]
+            elif o[0] == 'ib':
+                prog = [('ib', o[1], [inner_cmd(i)]), inner_cmd(i)]
+            elif o[0] == 'cl':
+                prog = [('cl',), inner_cmd(i)]
+            else:
+                prog = [o, inner_cmd(i), ('rel',), inner_cmd(i)]
+            sess.do(('borrow', prog))
+    sess.close()
+    return sess.cases, len(accesses)
